@@ -1,5 +1,5 @@
 """C01 Packet encoding is the Engine.IO v4 wire form and decoding inverts it."""
-from vf.rt import P, cond, verdict, fail
+from vf.rt import P, cond, verdict, fail, untraced
 from vf.oracles.refs import ref_b64, ref_compact_json, ref_wire_text
 from engineio import packet
 from engineio import json as eio_json
@@ -206,20 +206,20 @@ def binary_history_table(k: int, ba: bool, f1: bool, f2: bool, f3: bool) -> str:
     return verdict(_binary_history(bytearray(b) if ba else b, b, (f1, f2, f3), 'b' + ref_b64(b)))
 
 
-def _binary_inverts(b, ba):
+def _binary_inverts(b, ba, reenc=True):
     txt = 'b' + ref_b64(b)
     d = packet.Packet(encoded_packet=txt)
     if not d.binary or d.packet_type != packet.MESSAGE or d.data != b:
         return fail(PROP, 'BINARY-B64-INVERT', 'decode(%r) -> %r/%r/%r' % (txt, d.binary, d.packet_type, d.data))
     # the decoded packet is a packet like any other: encoding it again yields the form of the channel asked for
-    m = _reencode(d, b, txt, 'decode(%r)' % txt)
+    m = _reencode(d, b, txt, 'decode(%r)' % txt) if reenc else ''
     if m:
         return m
     raw = bytearray(b) if ba else b
     d = packet.Packet(encoded_packet=raw)
     if not d.binary or d.packet_type != packet.MESSAGE or d.data != b or not isinstance(d.data, bytes):
         return fail(PROP, 'BINARY-RAW-INVERT', 'decode(%r) -> %r/%r/%r' % (raw, d.binary, d.packet_type, d.data))
-    return _reencode(d, b, txt, 'decode(%r)' % (raw,))
+    return _reencode(d, b, txt, 'decode(%r)' % (raw,)) if reenc else ''
 
 
 def _reencode(d, b, txt, what):
@@ -239,7 +239,21 @@ def binary_inverts(b: bytes, ba: bool) -> str:
     pre: len(b) == P.N
     post: _ == ''
     """
-    return verdict(_binary_inverts(b, ba))
+    return verdict(_binary_inverts(b, ba, reenc=False))
+
+
+def _one_byte(h, l_, ba):
+    return _binary_inverts(bytes([16 * h + l_]), ba)
+
+
+@cond(quick=dict(timeout=90), thorough=dict(timeout=120))
+def binary_inverts_reencode_every_byte(h: int, l_: int, ba: bool) -> str:
+    """
+    pre: 0 <= h <= 15 and 0 <= l_ <= 15
+    post: _ == ''
+    """
+    # every one-byte payload: decode its two wire forms, then encode the decoded packet for both channels in both orders
+    return verdict(untraced(_one_byte, h, l_, ba))
 
 
 @cond(quick=dict(S=4, B=3, timeout=90), thorough=dict(S=8, B=6, timeout=600))
